@@ -60,6 +60,61 @@ var tests = []litmus{
 			rec(out, v, fmt.Sprint(x.Load()))
 		})
 	}},
+	{"typed-atomic-add-never-loses-an-update", []string{"2"}, false, func(e *vsched.Exec, out *[]string, v *vsched.Var) {
+		var x vsched.AtomicInt32
+		for _, n := range []string{"a", "b"} {
+			vsched.GoQuiet(n, func() { x.Add(1) })
+		}
+		vsched.GoQuiet("join", func() {
+			vsched.Sleep(time.Second)
+			rec(out, v, fmt.Sprint(x.Load()))
+		})
+	}},
+	{"typed-atomic-load-then-store-loses-an-update", []string{"1", "2"}, false, func(e *vsched.Exec, out *[]string, v *vsched.Var) {
+		var x vsched.AtomicInt64
+		for _, n := range []string{"a", "b"} {
+			vsched.GoQuiet(n, func() { t := x.Load(); x.Store(t + 1) })
+		}
+		vsched.GoQuiet("join", func() {
+			vsched.Sleep(time.Second)
+			rec(out, v, fmt.Sprint(x.Load()))
+		})
+	}},
+	{"typed-atomic-bool-cas-has-one-winner", []string{"a", "b"}, false, func(e *vsched.Exec, out *[]string, v *vsched.Var) {
+		var x vsched.AtomicBool
+		var log []string
+		var mu vsched.Mutex
+		for _, n := range []string{"a", "b"} {
+			n := n
+			vsched.GoQuiet(n, func() {
+				if x.CompareAndSwap(false, true) {
+					mu.Lock()
+					log = append(log, n)
+					mu.Unlock()
+				}
+			})
+		}
+		vsched.GoQuiet("join", func() {
+			vsched.Sleep(time.Second)
+			rec(out, v, strings.Join(log, " "))
+		})
+	}},
+	{"function-form-atomic-on-a-plain-variable", []string{"flag-seen data=7", "flag-unseen"}, false, func(e *vsched.Exec, out *[]string, v *vsched.Var) {
+		var flag uint32
+		var data vsched.AtomicPointer[int]
+		vsched.GoQuiet("writer", func() {
+			seven := 7
+			data.Store(&seven)
+			vsched.AtomicStoreUint32(&flag, 1)
+		})
+		vsched.GoQuiet("reader", func() {
+			if vsched.AtomicLoadUint32(&flag) == 1 {
+				rec(out, v, fmt.Sprintf("flag-seen data=%d", *data.Load()))
+			} else {
+				rec(out, v, "flag-unseen")
+			}
+		})
+	}},
 	{"unbuffered-nonblocking-send-lost", []string{"delivered", "lost"}, false, func(e *vsched.Exec, out *[]string, v *vsched.Var) {
 		ch := make(chan struct{})
 		vsched.GoQuiet("recv", func() {
